@@ -55,6 +55,19 @@ func (r *Rand) Bytes(n int) []byte {
 func (r *Rand) Pick(xs ...int) int { return xs[r.Intn(len(xs))] }
 func (r *Rand) Fork() *Rand        { return &Rand{s: r.U64()} }
 
+// Perm returns a permutation of 0..n-1 (Fisher-Yates over this generator).
+func (r *Rand) Perm(n int) []int {
+	p := make([]int, n)
+	for i := range p {
+		p[i] = i
+	}
+	for i := n - 1; i > 0; i-- {
+		j := r.Intn(i + 1)
+		p[i], p[j] = p[j], p[i]
+	}
+	return p
+}
+
 // LCGBytes expands the payload descriptor p:<n>:<seed>; identical to Oryx.lcgBytes.
 func LCGBytes(n int, seed uint32) []byte {
 	b := make([]byte, n)
